@@ -15,8 +15,8 @@ LEVEL_NOTE = 'values are compared through a structural representation (bytes by 
 
 def cases(quick):
     out = []
-    vals = ['none', 'zero', 'empty-str', 'empty-list', 'false', 'nested', 'obj', 'b0', 'b64k1', 'b208k1', 'b1m'] if quick else \
-        ['none', 'zero', 'empty-str', 'empty-list', 'false', 'nested', 'obj', 'b0', 'b1', 'b64k', 'b64k1', 'b208k1', 'b1m', 'b4m']
+    vals = ['none', 'zero', 'empty-str', 'empty-list', 'false', 'nested', 'obj', 'regex', 'union', 'b0', 'b64k1', 'b208k1', 'b1m'] if quick else \
+        ['none', 'zero', 'empty-str', 'empty-list', 'false', 'nested', 'obj', 'regex', 'union', 'b0', 'b1', 'b64k', 'b64k1', 'b208k1', 'b1m', 'b4m']
     excs = ['ve0', 've2', 'ke', 'custom', 'bpe', 'eof', 'crst', 'empty', 'cce', 'wce'] if quick else \
         ['ve0', 've2', 'ke', 'custom', 'oserr', 'bpe', 'eof', 'crst', 'empty', 'cce', 'wce', 'timeout', 'assert', 'stop']
     shapes = [([], {}), (['a'], {}), (['a', 2], {}), (['a'], {'k': [1]}), ([], {'k': 1, 'j': None})]
@@ -41,6 +41,12 @@ def cases(quick):
                 for v in ('slowobj', 'many'):
                     out.append({'kind': kind, 'factory': factory, 'target': 'ret_value', 'args': [v], 'kwargs': {}, 'what': 'polling-caller/value:' + v,
                                 'poll': True})
+            if factory:
+                # the factory after the persistent factory has produced a worker of the same kind in this process (what every Pool does)
+                out.append({'kind': kind, 'factory': True, 'target': 'ret_value', 'args': ['nested'], 'kwargs': {}, 'what': 'factory-after-persistent-factory/value:nested',
+                            'persistent_first': True})
+                out.append({'kind': kind, 'factory': True, 'target': 'raise_exc', 'args': ['ve2'], 'kwargs': {}, 'what': 'factory-after-persistent-factory/exc:ve2',
+                            'persistent_first': True})
             for run in (None, True, False):
                 out.append({'kind': kind, 'factory': factory, 'target': 'echo_args', 'args': ['r'], 'kwargs': {}, 'run': run, 'what': 'run:%s' % run})
                 out.append({'kind': kind, 'factory': factory, 'target': None, 'args': [], 'kwargs': {}, 'run': run, 'what': 'no-target/run:%s' % run})
@@ -111,7 +117,12 @@ def run(ctx):
             create['run'] = c['run']
         if c.get('slow_reader'):
             create['slow_reader'] = c['slow_reader']
-        sc = [create,
+        pre = []
+        if c.get('persistent_first'):
+            pre = [{'op': 'create', 'var': 'w0', 'kind': 'P' + c['kind'], 'target': 'echo', 'factory': True},
+                   {'op': 'call', 'var': 'w0', 'method': 'call', 'args': ['a'], 'timeout': 10, 'tag': 'persistent-call'},
+                   {'op': 'call', 'var': 'w0', 'method': 'wait', 'args': [10]}]
+        sc = pre + [create,
               {'op': 'call', 'var': 'w', 'method': 'is_alive', 'tag': 'alive0'},
               ({'op': 'poll_wait', 'var': 'w', 'step': 0.002, 'gap': 0.0, 'within': 30, 'tag': 'wait'} if c.get('poll') else
                {'op': 'call', 'var': 'w', 'method': 'wait', 'args': [20], 'timeout': 30, 'tag': 'wait', 'stop_on_hang': False}),
@@ -136,9 +147,12 @@ def run(ctx):
         ref = reference(c)
         t = {op.get('tag'): s for op, s in zip(jobs[0]['script'], st)} if False else None
         names = ['create', 'alive0', 'wait', 'has_error', 'result', 'error', 'count']
-        d = dict(zip(names, st))
+        d = dict(zip(names, st[3:] if c.get('persistent_first') else st))
         bad = None
-        if 'ret' not in d['create']:
+        if c.get('persistent_first') and (len(st) < 3 or st[1].get('ret') != [['a'], []]):
+            # whichever factory was used first in this process, the persistent factory gives a persistent worker
+            bad = ('persistent-factory-does-not-give-a-working-persistent-worker', st[1] if len(st) > 1 else st)
+        elif 'ret' not in d['create']:
             bad = ('constructor-%s' % d['create'].get('exc', 'hang'), d['create'])
         elif d['wait'].get('ret') is not True:
             bad = ('wait-does-not-return-true:%s' % d['wait'].get('ret', d['wait'].get('exc', 'hang')), d['wait'])
